@@ -8,6 +8,11 @@ import (
 	"github.com/gobwas/ws"
 )
 
+// maxMessagePrealloc is the maximum number of bytes that ReadMessage allocates
+// in advance for the payload of a non-fragmented message, trusting the length
+// announced by a frame header.
+const maxMessagePrealloc = 1 << 20
+
 // Message represents a message from peer, that could be presented in one or
 // more frames. That is, it contains payload of all message fragments and
 // operation code of initial frame for this message.
@@ -43,7 +48,7 @@ func ReadMessage(r io.Reader, s ws.State, m []Message) ([]Message, error) {
 		return m, err
 	}
 	var p []byte
-	if h.Fin {
+	if h.Fin && h.Length <= maxMessagePrealloc {
 		// No more frames will be read. Use fixed sized buffer to read payload.
 		p = make([]byte, h.Length)
 		// It is not possible to receive io.EOF here because Reader does not
@@ -51,7 +56,9 @@ func ReadMessage(r io.Reader, s ws.State, m []Message) ([]Message, error) {
 		// Thus we consistent here with io.Reader behavior.
 		_, err = io.ReadFull(&rd, p)
 	} else {
-		// Frame is fragmented, thus use ioutil.ReadAll behavior.
+		// Frame is fragmented (or announces more bytes than we are ready to
+		// allocate in advance trusting the peer), thus use ioutil.ReadAll
+		// behavior.
 		var buf bytes.Buffer
 		_, err = buf.ReadFrom(&rd)
 		p = buf.Bytes()
